@@ -45,7 +45,7 @@ LEVEL_NOTE = ("Partial: the refinement proof to the recursive specification (cor
               "attribute, text, comment, processing-instruction, if, choose, variable, param, with-param, literal result elements with "
               "AVTs, global variables, attribute sets (merged by import precedence), keys, xsl:number (value / level / count / from, "
               "multi-token formats), strip-space, import trees + include + apply-imports; "
-              "XPath: 10 axes, node tests, predicates, 31 functions, integer arithmetic; no namespaces, non-integer numbers, "
+              "XPath: 10 axes, node tests, predicates, 31 functions, arithmetic on exact dyadic rationals (div by powers of two); no namespaces, "
               "xsl:include). Walker model: conditions / node counts / selected templates are parameters of the tree, "
               "the direct-template shortcut is treated as a call; Variables model: values and names are numbers, lazily evaluated "
               "variables not modelled; Pending model: attribute list abstracted to an association list, namespaces/CDATA/HTML switch out of scope. "
@@ -82,6 +82,18 @@ def canon(reply):
     if not w or w[0] != "ok":
         return ("err", reply[:300])
     evs = []
+    scopes = [{}]            # namespace declarations in scope on the delivered stream (prefix -> URI)
+
+    def resolve(q):
+        # expanded name `{uri}local`; names already expanded (the Lean side) and unprefixed names stay as they are
+        if q.startswith("{") or ":" not in q:
+            return q
+        pfx, loc = q.split(":", 1)
+        for sc in reversed(scopes):
+            if pfx in sc:
+                return "{%s}%s" % (sc[pfx], loc) if sc[pfx] else loc
+        return q
+
     for t in w[1:]:
         if t == "#":
             break
@@ -90,11 +102,14 @@ def canon(reply):
         k = t[:2]
         body = t[2:]
         if k == "S:":
-            evs.append(["S", body, {}])
+            evs.append(["S", body, {}, {}])      # name, attributes, namespace declarations
         elif k == "A:":
             n, _, v = body.partition("=")
-            if evs and evs[-1][0] == "S" and not evs[-1][-1] is None:
-                evs[-1][2][n] = v
+            if evs and evs[-1][0] == "S":
+                if n == "xmlns" or n.startswith("xmlns:"):
+                    evs[-1][3][n[6:] if n.startswith("xmlns:") else ""] = dec(v)
+                else:
+                    evs[-1][2][n] = v
             else:
                 evs.append(["A!", n, v])      # attribute not directly after a start tag: never canonical
         elif k == "T:":
@@ -115,7 +130,13 @@ def canon(reply):
     out = []
     for e in evs:
         if e[0] == "S":
-            out.append(("S", e[1], tuple(sorted(e[2].items()))))
+            scopes.append(e[3])
+            # namespace declarations are not compared (they are not attributes); names are compared expanded
+            out.append(("S", resolve(e[1]), tuple(sorted((resolve(n), v) for n, v in e[2].items()))))
+        elif e[0] == "E":
+            out.append(("E", resolve(e[1])))
+            if len(scopes) > 1:
+                scopes.pop()
         else:
             out.append(tuple(e))
     return ("ok", tuple(out))
@@ -460,7 +481,12 @@ DOC1 = [("E", "r", [], [("E", "c", [], [("E", "c", [], []), ("E", "c", [], [])])
 # cases whose deviation is a recorded finding that the Quirks switches do not model (keyed by tag)
 DOC2 = [("E", "r", [], [("E", "b", [], [("E", "c", [], [])]), ("E", "d", [], [])])]
 
+DOC3 = [("E", "r", [], [("E", "c", [("q:x", "abc")], [])])]
+
 TAGGED_CORPUS = [
+    # copying an attribute node whose prefix the receiving element does not declare: the prefix stays undeclared
+    ("copy-namespaced-attribute-undeclared-prefix",
+     {"globals": [], "templates": [ROOT_T([LRE("out", [{"k": "copyof", "e": ("step", ("step", ("ctx",), "descendant", ("name", "c"), []), "attribute", "star", [])}])])]}, DOC3),
     # xsl:copy with two attribute sets while the current node is the root: content instantiated twice
     ("copy-usesets-on-root",
      {"globals": [], "attrsets": [ASET("s0", "x", "1"), ASET("s1", "y", "2")],
